@@ -82,7 +82,7 @@ CLAIMED = {
          'address program/parity are lift_x(P) + H_TapTweak(P||root)*G, and the BIP341 script-path verifier recomputes exactly that program and '
          'parity from every generated control block. Curve facts enter as explicit hypotheses (lift_x of the key, tweak < n). The tagged-hash '
          'leaves (utils.tagged_hash, tapleaf_tagged_hash, tapbranch_tagged_hash incl. the lexicographic ordering of the children) are re-translated on '
-         'every run and proved equal to the Spec hashes, and tweak_taproot_pubkey (internal key + tweak -> output key and parity) and PublicKey.to_taproot_hex (what the address object is built from) are translated and proved equal to the model, so "program and parity are BIP341\'s output key" is about the translated method (tier T); '
+         'every run and proved equal to the Spec hashes, and tweak_taproot_pubkey (internal key + tweak -> output key and parity) and PublicKey.to_taproot_hex / get_taproot_address (the P2TR object: witness version 1, the output key x, the parity flag) are translated and proved equal to the model, so "program and parity are BIP341\'s output key" is about the translated method (tier T); '
          'get_tag_hashed_merkle_root, calculate_tweak, _generate_merkle_path (its nested traverse_level with the nonlocal leaf counter threaded through) and '
          'ControlBlock.to_bytes are translated and proved equal to the model: the BIP341 root, and the control block built by the translated code makes the script-path '
          'verifier recompute the address (program and parity). PublicKey.to_taproot_hex / the address classes are tied by the correspondence run.', NOTE_COMMON + 'SHA-256 parameter; lift_x(internal key) and tweak < n are hypotheses of the curve-dependent theorems.',
